@@ -3,6 +3,7 @@
 #include "util.hpp"
 #include "libdump.hpp"
 #include <zlib.h>
+#include <lzma.h>
 using namespace vh;
 
 enum Kind { ARR, IARR, MAP, IMAP, BSTRP, BSTRS, TSTRP, TSTRS, BRK, BOOL, U8, U16, U32, U64, I8, I16, I32, I64, NKIND };
@@ -10,7 +11,11 @@ static const char* KN[] = {"array", "indef_array", "map", "indef_map", "bstr_ptr
                            "u8", "u16", "u32", "u64", "i8", "i16", "i32", "i64"};
 struct Op { int k; uint64_t a; };   // a: value (two's complement for signed) or length/count
 
-static std::string pat(size_t n, unsigned salt) { std::string s(n, 0); for (size_t i = 0; i < n; i++) s[i] = (char)((i * 131 + 7 + salt * 29) & 0xff); return s; }
+// string content: periodic for the first 64 calls of a trace, pseudo-random (incompressible) afterwards - only the long traces of stage 7 get that far,
+// and a compressing output has to emit while they are still being written
+static std::string pat(size_t n, unsigned salt) { std::string s(n, 0);
+    if (salt >= 64) { uint64_t x = 88172645463325252ULL ^ ((uint64_t)salt * 0x9e3779b97f4a7c15ULL); for (size_t i = 0; i < n; i++) { x ^= x << 13; x ^= x >> 7; x ^= x << 17; s[i] = (char)(x >> 23); } return s; }
+    for (size_t i = 0; i < n; i++) s[i] = (char)((i * 131 + 7 + salt * 29) & 0xff); return s; }
 
 static std::string expected(const Op& o, unsigned salt) {
     using ref::pref_head;
@@ -66,7 +71,14 @@ static std::string gunzip(const std::string& z) {
     return out;
 }
 
-enum SinkKind { MEM, FD, NAMED, GZMEM };
+static std::string unxz(const std::string& z) {
+    lzma_stream s = LZMA_STREAM_INIT; if (lzma_stream_decoder(&s, UINT64_MAX, 0) != LZMA_OK) return "<lzma init>";
+    std::string out; s.next_in = (const uint8_t*)z.data(); s.avail_in = z.size(); char buf[65536]; lzma_ret r;
+    do { s.next_out = (uint8_t*)buf; s.avail_out = sizeof buf; r = lzma_code(&s, LZMA_FINISH); out.append(buf, sizeof buf - s.avail_out); } while (r == LZMA_OK);
+    lzma_end(&s); if (r != LZMA_STREAM_END || s.avail_in != 0) return "<bad xz stream>";
+    return out;
+}
+enum SinkKind { MEM, FD, NAMED, GZMEM, XZMEM };
 static std::string g_dir;
 
 // run one trace: filler(f) then ops; returns "" if ok else description. key receives the op kind blamed.
@@ -79,6 +91,7 @@ static std::string run_trace(unsigned f, const std::vector<Op>& ops, int sink, R
         std::unique_ptr<CDNS::CdnsEncoder> e;
         if (sink == MEM) e.reset(new CDNS::CdnsEncoder(MemSink{&outs}, CDNS::CborOutputCompression::NO_COMPRESSION));
         else if (sink == GZMEM) e.reset(new CDNS::CdnsEncoder(MemSink{&outs}, CDNS::CborOutputCompression::GZIP));
+        else if (sink == XZMEM) e.reset(new CDNS::CdnsEncoder(MemSink{&outs}, CDNS::CborOutputCompression::XZ));
         else if (sink == FD) { fd = open(path.c_str(), O_WRONLY | O_CREAT | O_TRUNC, 0600); e.reset(new CDNS::CdnsEncoder(fd, CDNS::CborOutputCompression::NO_COMPRESSION)); }
         else e.reset(new CDNS::CdnsEncoder(path, CDNS::CborOutputCompression::NO_COMPRESSION));
         unsigned salt = 0;
@@ -103,6 +116,7 @@ static std::string run_trace(unsigned f, const std::vector<Op>& ops, int sink, R
     } // destroy -> flush
     if (sink == MEM) got = outs.empty() ? "" : outs[0];
     else if (sink == GZMEM) got = gunzip(outs.empty() ? "" : outs[0]);
+    else if (sink == XZMEM) got = unxz(outs.empty() ? "" : outs[0]);
     else if (sink == FD) { got = slurp(path); unlink(path.c_str()); }
     else { got = slurp(path); unlink(path.c_str()); }
     if (!why.empty()) return why;
@@ -184,6 +198,7 @@ int main(int argc, char** argv) {
     for (unsigned f : (T ? std::vector<unsigned>{0, 2044, 2045, 2046, 2047, 2048} : std::vector<unsigned>{0, 2047})) tasks.push_back({4, f}); // exhaustive 8/16-bit
     for (unsigned f = 0; f <= 2048; f++) if ((T && f % 64 == 0) || f >= (T ? 2040u : 2046u) || f == 0) tasks.push_back({5, f});   // string lengths 0..3*2048
     for (unsigned f : {0u, 2040u, 2041u, 2042u, 2043u, 2044u, 2045u, 2046u, 2047u, 2048u}) tasks.push_back({6, f});               // other sinks
+    for (unsigned f : {0u, 2047u}) for (unsigned v = 0; v < 2; v++) tasks.push_back({7, f * 2 + v});                                        // long traces through compressing outputs
     Pool pool(a.jobs);
     std::vector<Op> tri = {{U8, 0}, {U8, 24}, {U16, 256}, {U32, 65536}, {U64, 0x100000000ULL}, {I8, (uint64_t)-1LL}, {I16, (uint64_t)-257LL}, {I64, (uint64_t)INT64_MIN},
                            {BOOL, 1}, {BRK, 0}, {IARR, 0}, {IMAP, 0}, {ARR, 3}, {MAP, 70000}, {BSTRS, 0}, {BSTRS, 1}, {TSTRS, 5}, {BSTRP, 9}, {TSTRP, 2049}, {ARR, 0x100000000ULL}};
@@ -199,6 +214,10 @@ int main(int argc, char** argv) {
             for (uint64_t v = 0; v < 65536; v++) { check_trace(t.f, {{U16, v}}, MEM, r); check_trace(t.f, {{I16, (uint64_t)(int64_t)(int16_t)v}}, MEM, r); }
             break;
         case 5: for (uint64_t l = 0; l <= 6144; l += 1) { check_trace(t.f, {{(l & 1) ? BSTRS : TSTRP, l}}, MEM, r); } break;
+        case 7: { // about 450 KB (thorough: 1.8 MB) of calls: 64 short ones, then strings with incompressible content between integers and container heads; every output kind
+            unsigned f = t.f / 2, v = t.f % 2; std::vector<Op> ops; for (int i = 0; i < 64; i++) ops.push_back(tri[i % tri.size()]);
+            for (int i = 0; i < (T ? 1200 : 300); i++) { ops.push_back({v ? TSTRS : BSTRP, (uint64_t)(v ? 2049 - i % 5 : 1500 + i % 97)}); ops.push_back(tri[i % 14]); if (i % 3 == 0) ops.push_back({BSTRS, (uint64_t)(i % 40)}); }
+            for (int sink : {GZMEM, XZMEM, FD, NAMED}) { check_trace(f, ops, sink, r); r.count("long_traces"); } break; }
         case 6: { auto al = alphabet(t.f, true); for (int sink : {FD, NAMED, GZMEM}) for (auto& o : al) check_trace(t.f, {o, {U8, 42}}, sink, r); break; }
         }
     }, [&](uint64_t i, const std::string& d, Result& r) {
